@@ -4,6 +4,7 @@ import random
 from .. import sx, gen, lib, meaning as M, monitors, minimise
 from .common import sig, prog_features, case_prog
 from . import builder_route
+from . import execcommon as X
 
 RULE = ("programs in the common subset of the three front ends: lets (named / anonymous, int / float), one register (named / "
         "anonymous, literal or let size), gates with numeric, let and qubit arguments, nested sequential / parallel blocks, loops "
@@ -20,7 +21,7 @@ ASSUMPTIONS = ["the auto-naming scheme is not prescribed: names are read back; o
 TIERS = {"quick": {"shards": 8, "budget_s": 100}, "thorough": {"shards": 16, "budget_s": 300}}
 REQUIRE = {"text-route-with-random-layout-and-comments": 1500, "qsyntax-functions-called-twice": 1500, "programs": 1500, "anonymous-let": 300, "anonymous-register": 300, "user-name-like-auto-name": 200,
            "implicit-wrap-expected": 300, "no-wrap-expected": 300, "pairs-compared": 4000, "subcircuit-with-count": 100,
-           "full:programs": 1000, "full:near-twin-number-literals": 150, "full:macro-eager": 300, "full:loop-eager": 100, "full:map-eager": 200, "full:behaviour-compared": 3000,
+           "full:programs": 1000, "full:programs-with-the-gate-set-in-force": 500, "full:near-twin-number-literals": 150, "full:macro-eager": 300, "full:loop-eager": 100, "full:map-eager": 200, "full:behaviour-compared": 3000,
            "full:eager-macro-calling-macro": 100}
 
 
@@ -381,14 +382,17 @@ def judge_full(case):
     if not sx.legal_nesting(prog):
         return "skipped:illegal-nesting", [], {}
     text = sx.to_text(prog, random.Random(case["lseed"]), comments=True) if case.get("lseed") is not None else sx.to_text(prog)
-    ot = lib.outcome(lib.parse, text)
+    # with a gate set in force every front end checks calls against the same definitions (and the builder re-checks what
+    # was built before the gate set was known)
+    native = X.native() if case.get("native") else None
+    ot = lib.outcome(lib.parse, text, native)
     if ot[0] != "ok":
         return "skipped:input-rejected", [], {}
     info = {"pairs": 0, "choices": [], "behaviour": 0}
     fails = []
-    routes = {"text": ot, "sexpr": lib.outcome(lib.build, prog)}
+    routes = {"text": ot, "sexpr": lib.outcome(lib.build, prog, native)}
     for tag, seed in (("builder-plain", None), ("builder-mixed", case.get("bseed", 0))):
-        o = lib.outcome(builder_route.via_builder, prog, seed)
+        o = lib.outcome(builder_route.via_builder, prog, seed, native)
         if o[0] == "ok":
             c, ch = o[1]
             routes[tag] = ("ok", c)
@@ -537,6 +541,14 @@ def shard(ctx):
                                          ("macro", "tw2", ("sequential_block", ("gate", "tw", b)))) + fp[hdr_end + 1:]
                 rec.count("full:near-twin-number-literals")
             process_full(ctx, {"prog": fp, "bseed": rng.randrange(1 << 30), "lseed": rng.randrange(1 << 30) if rng.random() < 0.5 else None}, seen)
+        if i % 8 == 5:
+            # programs over the native gate set, every front end with that gate set in force
+            rng = ctx.rng
+            size = rng.choice([2, 3])
+            g = gen.ExecGen(rng, reg_size=(size, size), max_depth=rng.choice([2, 3]), body_len=(1, 3), n_maps=(0, 3), n_macros=(0, 3),
+                            p_sub_count=0.8, macro_sub=rng.random() < 0.5)
+            process_full(ctx, {"prog": g.program(), "bseed": rng.randrange(1 << 30), "lseed": None, "native": True}, seen)
+            rec.count("full:programs-with-the-gate-set-in-force")
     monitors.report_contracts(rec)
 
 
